@@ -927,6 +927,77 @@ impl RouterArea {
     }
 }
 
+impl RouterArea {
+    /// pre/post lists: 3..5 rules in one position (many of them matching the
+    /// same requests), removal of a non-last one (then sometimes another),
+    /// probes matched by two or more survivors - order of the survivors matters
+    fn gen_prepost(&self, rng: &mut Rng) -> Vec<String> {
+        let pos = rng.below(2) as u8;
+        let hosts = ["*", "*.a.io", "*.io", "a.io", "b.a.io"];
+        let n = rng.range(3, 5) as usize;
+        let mut fronts: Vec<Front> = vec![];
+        let mut tries = 0;
+        while fronts.len() < n && tries < 60 {
+            tries += 1;
+            let mut f = gen_front(rng, &hosts, fronts.len(), false);
+            f.pos = pos;
+            f.host = if rng.chance(1, 2) { "*".to_string() } else { rng.pick(&hosts).to_string() };
+            if rng.chance(3, 4) {
+                f.kind = 0;
+                f.path = rng.pick(&["", "/", "/a"]).to_string();
+            }
+            if rng.chance(2, 3) {
+                f.method = None;
+            }
+            if !fronts.iter().any(|g| same_key(g, &f)) {
+                fronts.push(f);
+            }
+        }
+        // a tree frontend or a rule in the other position now and then
+        let mut extra: Vec<Front> = vec![];
+        if rng.chance(1, 3) {
+            let mut f = gen_front(rng, HOSTS_BASE, 20, false);
+            f.pos = if rng.chance(1, 2) { 2 } else { 1 - pos };
+            extra.push(f);
+        }
+        let mut ip = InPlay::default();
+        for f in fronts.iter().chain(extra.iter()) {
+            ip.note(f);
+        }
+        let probes = |ops: &mut Vec<String>, rng: &mut Rng| {
+            for h in ["a.io", "b.a.io", "c.a.io", "io"] {
+                for p in ["/a", "/ab", "/"] {
+                    ops.push(probe_line(h, p, *rng.pick(METHODS), &ip));
+                }
+            }
+        };
+        let mut ops = vec!["new".to_string()];
+        for f in fronts.iter().chain(extra.iter()) {
+            ops.push(add_line(f, &ip));
+        }
+        probes(&mut ops, rng);
+        if fronts.len() >= 2 {
+            let k = rng.below(fronts.len() as u64 - 1) as usize; // never the last one
+            ops.push(rem_line(&fronts[k], &ip));
+            probes(&mut ops, rng);
+            let rest: Vec<usize> = (0..fronts.len()).filter(|i| *i != k).collect();
+            if rest.len() >= 3 && rng.chance(1, 2) {
+                let k2 = rest[rng.below(rest.len() as u64 - 1) as usize];
+                ops.push(rem_line(&fronts[k2], &ip));
+                probes(&mut ops, rng);
+            }
+            if rng.chance(1, 3) {
+                // re-add the removed one: it goes to the end
+                let mut f = fronts[k].clone();
+                f.cluster = Some("c30".into());
+                ops.push(add_line(&f, &ip));
+                probes(&mut ops, rng);
+            }
+        }
+        ops
+    }
+}
+
 fn front_simple(pos: u8, host: &str, kind: u32, path: &str, method: Option<&str>, cluster: &str) -> Front {
     Front {
         pos,
@@ -966,7 +1037,7 @@ impl Area for RouterArea {
         "router"
     }
     fn rule(&self) -> String {
-        "three streams over sozu_lib::router::Router::{add_http_front,remove_http_front,lookup}: (60%) random add/remove histories of 3..11 (thorough 16) ops, hosts from {a.io,b.a.io,c.a.io,bc.a.io,*.a.io,*.io,*} (+ leftmost-regex hosts /b.*/.a.io,/[bc]+/.a.io in 1/3, + mid-regex hosts w./x.*/.io.. in 1/6 of the cases, + malformed hosts/regexes/kinds), paths PREFIX{'',/,/a,/a/b,/ab} EQUALS{/a,/ab,/,/a/b} REGEX{/a.*,^/ab?$,/a/[a-z]+}, methods {none,GET,POST}, positions pre/post/tree 1:1:8, routes ClusterId/Deny/Frontend(redirect,scheme,template,rewrite,auth), 7 probes (host,path,method) from a 15x7x2 grid after every op + the full grid before/after every op for the oracles; (40%) permutation cases: 2..6 distinct-key frontends built in 3 random orders with the same 14+ probes; non-trivial = at least one probe routed by a tree frontend and at least 2 frontends configured; distinct = distinct op sequence".into()
+        "four streams over sozu_lib::router::Router::{add_http_front,remove_http_front,lookup}: (55%) random add/remove histories of 3..11 (thorough 16) ops, hosts from {a.io,b.a.io,c.a.io,bc.a.io,*.a.io,*.io,*} (+ leftmost-regex hosts /b.*/.a.io,/[bc]+/.a.io in 1/3, + mid-regex hosts w./x.*/.io.. in 1/6 of the cases, + malformed hosts/regexes/kinds), paths PREFIX{'',/,/a,/a/b,/ab} EQUALS{/a,/ab,/,/a/b} REGEX{/a.*,^/ab?$,/a/[a-z]+}, methods {none,GET,POST}, positions pre/post/tree 1:1:8, routes ClusterId/Deny/Frontend(redirect,scheme,template,rewrite,auth), 7 probes (host,path,method) from a 15x7x2 grid after every op + the full grid before/after every op for the oracles; (30%) permutation cases: 2..6 distinct-key frontends built in 3 random orders with the same 14+ probes; (15%) pre/post cases: 3..5 distinct-key rules in one position (half of them host `*`, mostly PREFIX '' / / /a so that several match one request), removal of a non-last rule (sometimes a second one, sometimes a re-add) with a 4x3 probe grid after each step; non-trivial = at least one probe has an admissible route and at least 2 frontends configured; distinct = distinct op sequence".into()
     }
     fn cases(&self, thorough: bool) -> u64 {
         if thorough {
@@ -1020,6 +1091,28 @@ impl Area for RouterArea {
                 &[(true, fs(2, "v./x.*/.io", 0, "/", None, "c1")), (true, fs(2, "w.xy.io", 0, "/", None, "c2"))],
                 &[("v.xy.io", "/", "GET")],
             ),
+            // pre list: three rules matching the same request, the middle / the first removed:
+            // the survivors keep their order (Vec::remove, not swap_remove)
+            witness(
+                &[
+                    (true, fs(0, "*", 0, "", None, "c1")),
+                    (true, fs(0, "*", 0, "/a", None, "c2")),
+                    (true, fs(0, "*", 0, "/", None, "c3")),
+                    (true, fs(0, "*.io", 0, "/a", None, "c4")),
+                    (false, fs(0, "*", 0, "", None, "c1")),
+                    (false, fs(0, "*", 0, "/a", None, "c2")),
+                ],
+                &[("a.io", "/ab", "GET"), ("b.a.io", "/", "GET")],
+            ),
+            witness(
+                &[
+                    (true, fs(1, "*", 0, "/a", None, "c1")),
+                    (true, fs(1, "a.io", 0, "", None, "c2")),
+                    (true, fs(1, "*", 0, "", None, "c3")),
+                    (false, fs(1, "*", 0, "/a", None, "c1")),
+                ],
+                &[("a.io", "/ab", "GET")],
+            ),
             // sanity: exact > wildcard, longest prefix, pre before tree before post
             witness(
                 &[
@@ -1040,10 +1133,10 @@ impl Area for RouterArea {
             3..=4 => 1,
             _ => 2,
         };
-        if rng.chance(3, 5) {
-            self.gen_history(rng, thorough, stream)
-        } else {
-            self.gen_permutation(rng, stream)
+        match rng.below(20) {
+            0..=10 => self.gen_history(rng, thorough, stream),
+            11..=16 => self.gen_permutation(rng, stream),
+            _ => self.gen_prepost(rng),
         }
     }
     fn run_impl(&self, ops: &[String]) -> ImplRun {
@@ -1067,7 +1160,7 @@ impl Area for RouterArea {
             let x = impl_lookup(router, h, p, m);
             let w = spec_route(s, h, p, m);
             let admissible: BTreeSet<&str> = w.iter().map(|fe| fe.res.as_str()).collect();
-            if w.iter().any(|fe| fe.f.pos == 2) {
+            if !w.is_empty() {
                 *tree_routed = true;
             }
             let ok = if x == "none" { w.is_empty() } else { admissible.contains(x.as_str()) };
